@@ -47,7 +47,7 @@ fn t0() { let a = abi(A, CONTRACT_ID); log(a.inc(2)); log(a.inc(1)); let r = a.e
 const STRINGS: &str = r#"script;
 #[inline(never)]
 fn opq<T>(x: T) -> T { asm(r: x) { r: T } }
-struct W { s: str[5], n: u256, t: (u8, [u16; 3]) }
+struct W { s: str[7], n: u256, t: (u8, [u16; 3]) }
 enum E { A: (), B: W }
 const BIG: u256 = 0xffffffffffffffffffffffffffffffffffffffffffffffffffffffffffffffffu256;
 const Z: b256 = 0x8000000000000000000000000000000000000000000000000000000000000001;
@@ -251,6 +251,26 @@ fn norm_snippet(t: &str) -> String {
 
 fn classify(msg: &str) -> String {
     if let Some(rest) = msg.strip_prefix("re-parse/verify failed: ") {
+        if let Some(line) = rest.split(" [line: ").nth(1) {
+            // shape of the offending line: IR keywords and punctuation kept, everything else `_`
+            const KW: &[&str] = &[
+                "global", "const", "slice", "string", "u8", "u64", "u256", "b256", "bool", "config", "fn", "entry", "entry_orig",
+                "asm", "wide", "storage_key", "get_storage_key", "local", "mut", "ptr", "__ptr", "__slice", "call", "ret", "store",
+                "load", "to", "cmp", "add", "sub", "mul", "div", "mod", "not", "and", "or", "xor", "lsh", "rsh", "never", "pub",
+                "fallback", "undef", "get_local", "get_global", "get_config", "get_elem_ptr", "mem_copy_val", "mem_copy_bytes",
+                "br", "cbr", "switch", "cast_ptr", "bitcast", "int_to_ptr", "ptr_to_int", "init_aggr", "contract_call", "log",
+                "revert", "state_load_word", "state_store_word", "state_load_quad_word", "state_store_quad_word", "state_clear",
+            ];
+            let line = line.trim_end_matches(']');
+            let mut shape: Vec<String> = vec![];
+            for t in vh_comp::irtext::tokens(line) {
+                let k = if t.chars().all(|c| c.is_ascii_alphanumeric() || c == '_') && !KW.contains(&t) { "_" } else { t };
+                if !(k == "_" && shape.last().map(|l| l == "_").unwrap_or(false)) {
+                    shape.push(k.to_string());
+                }
+            }
+            return format!("reparse-fails|line-shape {}", shape.join(" "));
+        }
         if rest.starts_with("Parse failure") {
             // keep what was expected and a few characters of what was found
             let exp = rest.split("expected ").nth(1).unwrap_or("").split("', found").next().unwrap_or("").chars().take(50).collect::<String>();
